@@ -261,6 +261,18 @@ pub fn gen_client(rng: &mut Rng, id: usize) -> Vec<String> {
                 extra.push(format!("{}={}", hx(e.0), hx(e.1)));
             }
         }
+        // extra headers named like the ones the library generates itself
+        for e in [
+            ("Host", "evil.example"),
+            ("sec-websocket-key", "AAAAAAAAAAAAAAAAAAAAAA=="),
+            ("Connection", "keep-alive"),
+            ("UPGRADE", "h2c"),
+            ("Sec-WebSocket-Version", "8"),
+        ] {
+            if rng.chance(1, 12) {
+                extra.push(format!("{}={}", hx(e.0), hx(e.1)));
+            }
+        }
         lines.push(format!(
             "hcfg uri={} extra={} protos={}",
             hx(uri),
@@ -347,4 +359,78 @@ pub fn gen_client(rng: &mut Rng, id: usize) -> Vec<String> {
     }
     lines.push("end".into());
     lines
+}
+
+/// Every two-way cut (with and without a WouldBlock in between) of one valid request and of one
+/// valid response followed by frame bytes, plus three-way cuts around the empty line.
+pub fn gen_cuts(rng: &mut Rng) -> Vec<Vec<String>> {
+    let mut cases = Vec::new();
+    let inf = 1usize << 40;
+    // ---- server
+    let head = "GET /chat HTTP/1.1\r\nHost: example.com\r\nUpgrade: websocket\r\nConnection: Upgrade\r\nSec-WebSocket-Key: dGhlIHNhbXBsZSBub25jZQ==\r\nSec-WebSocket-Version: 13\r\n\r\n";
+    let hb = head.as_bytes().to_vec();
+    let mut id = 0;
+    let mut server_case = |rd: String, cases: &mut Vec<Vec<String>>, rng: &mut Rng, id: &mut usize| {
+        let mut lines = vec![format!("case hs-server cut{}", *id)];
+        *id += 1;
+        lines.push("hcfg callback=none".into());
+        lines.push(format!("peer {}", hex(&hb)));
+        lines.push(format!("script rd={rd} rddef=d{inf} wr=- wrdef=a{inf} fl=- fldef=o"));
+        lines.push("op accept m=-".into());
+        for _ in 0..4 {
+            lines.push("op resume m=-".into());
+        }
+        lines.push(format!("peer {}", hex(&enc_frame(true, 0, 2, Some(rng.mask()), &[1, 2, 3], LenForm::Minimal))));
+        lines.push("op read m=-".into());
+        lines.push("end".into());
+        cases.push(lines);
+    };
+    for k in 1..hb.len() {
+        server_case(format!("d{k}"), &mut cases, rng, &mut id);
+        if k % 3 == 0 || k < 8 || k + 8 > hb.len() {
+            server_case(format!("d{k},b"), &mut cases, rng, &mut id);
+        }
+    }
+    for a in (hb.len() - 6)..hb.len() {
+        for b in 1..(hb.len() - a) {
+            server_case(format!("d{a},d{b}"), &mut cases, rng, &mut id);
+            server_case(format!("d{a},b,d{b},b"), &mut cases, rng, &mut id);
+        }
+    }
+    // one byte at a time until the end of the first line, then the rest
+    server_case(format!("{}", vec!["d1"; 20].join(",")), &mut cases, rng, &mut id);
+    // ---- client: the head is followed by frames in the same segment
+    let pre = "HTTP/1.1 101 Switching Protocols\r\nUpgrade: websocket\r\nConnection: Upgrade\r\nSec-WebSocket-Accept: ";
+    for tail_len in [3usize, 10] {
+        let mut suffix = b"\r\n\r\n".to_vec();
+        suffix.extend(enc_frame(true, 0, 2, None, &rng.bytes(tail_len), LenForm::Minimal));
+        suffix.extend(enc_frame(true, 0, 1, None, b"ok", LenForm::Minimal));
+        let total = pre.len() + 28 + suffix.len();
+        let m = format!("m={},{},{}", hex(&rng.mask()), hex(&rng.mask()), hex(&rng.mask()));
+        for k in 1..total {
+            for with_block in [false, true] {
+                if with_block && !(k % 4 == 0 || k + 24 > total) {
+                    continue;
+                }
+                let mut lines = vec![format!("case hs-client cut{id}")];
+                id += 1;
+                lines.push(format!("hcfg uri={} extra=- protos=-", hx("ws://example.com/")));
+                lines.push(format!("peerkey {} {} accept=1", hex(pre.as_bytes()), hex(&suffix)));
+                lines.push(format!(
+                    "script rd=d{k}{} rddef=d{inf} wr=- wrdef=a{inf} fl=- fldef=o",
+                    if with_block { ",b" } else { "" }
+                ));
+                lines.push("op client m=-".into());
+                for _ in 0..3 {
+                    lines.push("op resume m=-".into());
+                }
+                lines.push(format!("op read {m}"));
+                lines.push(format!("op read {m}"));
+                lines.push(format!("op read {m}"));
+                lines.push("end".into());
+                cases.push(lines);
+            }
+        }
+    }
+    cases
 }
